@@ -218,8 +218,11 @@ fn eval_path(case: &Case, path: &str, h: RoomPowerLevels, t: &mut Tally) -> Vec<
                 );
                 cmp("user_can_send_message", h.user_can_send_message(actor, MessageLikeEventType::from(ty)), a, format!("type {ty}"), t);
             }
-            for ty in ["m.room.name", "m.room.topic", "x.custom"] {
-                let e = world::ev("$new:s1", SENDER, ty, Some(""), json!({"name": "x"}));
+            for ty in ["m.room.name", "m.room.topic", "x.custom", "m.room.power_levels"] {
+                // a power-levels event that changes nothing (the current content again) needs exactly the level
+                // required for its type: the per-entry rules of that event type have nothing to object to
+                let content = if ty == "m.room.power_levels" { case.pl.clone() } else { json!({"name": "x"}) };
+                let e = world::ev("$new:s1", SENDER, ty, Some(""), content);
                 let a = auth_ok(v, &room, e, t);
                 cmp(
                     "user_can_do(SendState)",
@@ -344,7 +347,7 @@ fn for_cases(v: u8, family: &'static str, f: &mut dyn FnMut(Case)) {
                     for sd in THRESH {
                         for udef in UDEF {
                             for a in ACTOR {
-                                for (ety, el) in [(None, None), (Some("m.room.message"), Some(50)), (Some("m.room.name"), Some(50)), (Some("x.custom"), Some(49)), (Some("m.reaction"), Some(51))] {
+                                for (ety, el) in [(None, None), (Some("m.room.message"), Some(50)), (Some("m.room.name"), Some(50)), (Some("x.custom"), Some(49)), (Some("m.reaction"), Some(51)), (Some("m.room.power_levels"), Some(51)), (Some("m.room.power_levels"), Some(0))] {
                                     let pl = Pl::default()
                                         .field("events_default", ed.map(|n| enc(e, n)))
                                         .field("state_default", sd.map(|n| enc(e, n)))
